@@ -130,6 +130,7 @@ class Eval:
             if r["agg"] == "tuple": return Tup(f)
             if r["agg"] == "adt": return Adt(r["adt"], r["variant"], f)
             if r["agg"] == "closure" and r.get("def") in Eval.BODIES: return Adt("closure", r["def"], f)
+            if r["agg"] == "array": return Unknown("array")        # the argument array of a formatted panic message
             raise Inconclusive("aggregate " + r["agg"])
         if k == "discr":
             return ("discr", s.read(P, r["p"]))
@@ -350,6 +351,8 @@ class Eval:
         cb = Eval.BODIES.get(fn.get("resolved") or path) or Eval.BODIES.get(path)
         if cb is not None and cb.get("blocks"):
             return ("multi", s.inline(P, cb, args))
+        if path.startswith("core::fmt::"):
+            return Unknown("fmt")          # building a panic message
         raise Inconclusive("call " + path)
     def run(s):
         b = s.b
@@ -447,6 +450,10 @@ class Eval:
                         s.write(Q, t["dest"], val)
                         s.step(Q, t["target"], depth + 1)
                     return
+            if t["target"] is None and (fnr.get("path") or "").startswith("core::panicking::"):
+                # an explicit panic (a failed assert!): the path ends here
+                s.top.results.append((P.conds, P.actions + [("PANIC", "explicit panic")], Unknown("PANIC:explicit"), P.mem["self"][0] if "self" in P.mem else None))
+                return
             v = s.call(P, t)
             if isinstance(v, tuple) and len(v) == 2 and v[0] == "multi":
                 for Q, v2 in v[1]:
@@ -1224,6 +1231,10 @@ def r_cursor(f):
             want = N * (ONE + K)
             badp = []
             for conds, actions, ret, final in res:
+                if any(a[0] == "PANIC" and str(a[1]) == "bounds:get_unchecked" for a in actions):
+                    # an unchecked access that the path facts do not bound: no panic, undefined behaviour
+                    badp.append((conds, Unknown("an unchecked access not bounded by the slice length")))
+                    continue
                 if any(a[0] == "PANIC" for a in actions):
                     continue
                 if not (isinstance(ret, Elem) and ret.off == want):
